@@ -1634,7 +1634,11 @@ THEOREMS = {
     "C01": ["Iauthd.Properties.C01_invariant", "Iauthd.Properties.C01_verdict_removes", "Iauthd.Properties.C01_unknown_id_inert",
             "Iauthd.Properties.C01_names_live", "Iauthd.Properties.C01_timeout_names", "Iauthd.Proto.reqEvent_emits", "Iauthd.Proto.xqReply_emits",
             "Iauthd.Proto.accept_spec", "Iauthd.Proto.kill_spec", "Iauthd.Proto.gate_spec", "Iauthd.Proto.reqEvent_spec",
-            "Iauthd.Proto.xqReply_spec", "Iauthd.Proto.withReq_inv"],
+            "Iauthd.Proto.xqReply_spec", "Iauthd.Proto.withReq_inv",
+            "Iauthd.Properties.C01_history", "Iauthd.Properties.C01_history_from", "Iauthd.Properties.C01_trace_faithful",
+            "Iauthd.Properties.C01_reload", "Iauthd.Proto.runTrace_sim", "Iauthd.Proto.stepLine_sim", "Iauthd.Proto.stepTimeout_sim",
+            "Iauthd.Proto.reqEvent_tr", "Iauthd.Proto.xqReply_tr", "Iauthd.Proto.shape_fold", "Iauthd.Proto.sendReq_parse",
+            "Iauthd.Proto.xquery_parse", "Iauthd.Proto.strtol_decInt", "Iauthd.Proto.runTrace_runOps"],
     "C02": ["Iauthd.Properties.C02_counters", "Iauthd.Properties.C02_gate", "Iauthd.Properties.C02_gate_sets",
             "Iauthd.Properties.C02_refusal_kills", "Iauthd.Proto.runOps_hold", "Iauthd.Proto.gate_condition_iff",
             "Iauthd.Proto.xqVouch_hold", "Iauthd.Proto.xqCheckPassword_hold", "Iauthd.Proto.xqFinishPre_hold",
@@ -1689,7 +1693,9 @@ def lean_targets(prop):
 def lean_modules(prop):
     return ["Iauthd.Proto.Text", "Iauthd.Proto.Model", "Iauthd.Proto.Handlers", "Iauthd.Proto.Step", "Iauthd.Proto.Hist", "Iauthd.Proto.Proofs", "Iauthd.Proto.Table", "Iauthd.Proto.Props", "Iauthd.Proto.Holds", "Iauthd.Proto.Chunk", "Iauthd.Proto.Names"] + (
         ["Iauthd.Proto.Render", "Iauthd.Proto.RenderHex", "Iauthd.Proto.RenderLines", "Iauthd.Proto.RenderInv", "Iauthd.Proto.RenderStep",
-         "Iauthd.Proto.RenderConf", "Iauthd.Addr.ProofsChars"] if prop in ("C09", "C04") else []) + ["Iauthd.Properties." + prop]
+         "Iauthd.Proto.RenderConf", "Iauthd.Addr.ProofsChars"] if prop in ("C09", "C04", "C01") else []) + (
+        ["Iauthd.Proto.Spec01", "Iauthd.Proto.RenderDec", "Iauthd.Proto.Parse01", "Iauthd.Proto.Trace01", "Iauthd.Proto.Sim01",
+         "Iauthd.Proto.History01", "Iauthd.Properties.C09"] if prop == "C01" else []) + ["Iauthd.Properties." + prop]
 
 
 def checker_cmd(prop):
